@@ -29,6 +29,7 @@ type fcase struct {
 	Wt       string // working tree file at the path: absent | same | short10 | big5000 | ptrbase (the pointer text the class-N input begins with, as a checkout with smudging skipped leaves it)
 	CfgExt   bool   // an LFS extension (lfs.extension.vx) is configured
 	Progress bool   // GIT_LFS_PROGRESS names an absolute, usable path (clean then copies with a progress callback)
+	Ref      string // class P: a reference store holds the object the pointer names, the local store does not (refstore.go); "" = none
 }
 
 func (c fcase) mode() string {
@@ -38,6 +39,9 @@ func (c fcase) mode() string {
 	}
 	if c.Progress {
 		m += "+progress-env"
+	}
+	if c.Ref != refNone {
+		m += "+reference-store/" + c.Ref
 	}
 	return m
 }
@@ -172,7 +176,8 @@ func setWt(abs, state string, b []byte, ptrLen int) {
 }
 
 // judgeP: clean output for a class-P input.
-func judgeP(in input, out []byte, before, after int) (string, string) {
+func judgeP(in input, out []byte, beforeSet, afterSet map[string]int64) (string, string) {
+	before, after := len(beforeSet), len(afterSet)
 	if !bytes.Equal(out, in.B) {
 		if p, ok := ptrspec.ParseCanonical(out); ok && len(out) > 0 {
 			sha := sbx.Sha256Hex(in.B)
@@ -193,8 +198,8 @@ func judgeP(in input, out []byte, before, after int) (string, string) {
 		}
 		return "pointer-output-differs", fmt.Sprintf("clean of a well-formed pointer did not return the bytes unchanged: in %q out %q", sbx.Trunc(in.B, 500), sbx.Trunc(out, 500))
 	}
-	if after != before {
-		return "object-added-for-pointer", fmt.Sprintf("clean of a well-formed pointer returned it unchanged but files under lfs/objects went from %d to %d", before, after)
+	if d := objSetDiff(beforeSet, afterSet); d != "" {
+		return "object-added-for-pointer", fmt.Sprintf("clean of a well-formed pointer returned it unchanged but the set of files under lfs/objects changed: %s", d)
 	}
 	return "", ""
 }
@@ -230,7 +235,13 @@ func execFilter(c fcase, seed int64, o obs) (in input, vs []viol) {
 	}
 	env := sbx.New(sopts...)
 	defer env.Cleanup()
-	repo := env.InitRepo("repo")
+	var repo string
+	var refEnv []string
+	if c.Ref != refNone {
+		repo, refEnv = setupRefRepo(env, c.Ref, in, "dir/f.bin", o)
+	} else {
+		repo = env.InitRepo("repo")
+	}
 	gitDir := filepath.Join(repo, ".git")
 	os.WriteFile(filepath.Join(repo, ".gitattributes"), []byte("*.bin filter=lfs diff=lfs merge=lfs -text\n"), 0o644)
 	// environment coordinate: GIT_LFS_PROGRESS unset (nil) or an absolute usable path
@@ -245,6 +256,17 @@ func execFilter(c fcase, seed int64, o obs) (in input, vs []viol) {
 			}
 		}()
 	}
+	penv = append(penv, refEnv...)
+	// class-P clean with the named object only in a reference store (counted per clean request)
+	refClean := func() {
+		if c.Ref != refNone {
+			if !onlyInReference(filepath.Join(env.Root, "ref", ".git"), gitDir, in.Oid, int64(len(in.Obj))) {
+				panic("reference-store precondition lost before the clean")
+			}
+			o.add("refstore_class_p_cleans_object_only_in_reference_store", 1)
+			o.add("refstore_class_p_cleans_object_only_in_reference_store_"+c.Mode+"_"+c.Ref, 1)
+		}
+	}
 	if c.CfgExt {
 		for _, kv := range filt.InstallExt(env) {
 			env.MustGit(repo, "config", kv[0], kv[1])
@@ -256,7 +278,7 @@ func execFilter(c fcase, seed int64, o obs) (in input, vs []viol) {
 	add := func(sym, op, what string, extra map[string]any) {
 		vs = append(vs, viol{Sym: sym, Op: op, What: what, Extra: extra})
 	}
-	before := filt.CountObjects(gitDir)
+	before := objSet(gitDir)
 	o.add("inputs_"+in.Family, 1)
 	o.add("input_bytes", int64(len(in.B)))
 
@@ -266,6 +288,7 @@ func execFilter(c fcase, seed int64, o obs) (in input, vs []viol) {
 		chunks := pl.Split(in.B)
 		o.add("write_chunks", int64(len(chunks)))
 		if in.Kind != "S-empty" {
+			refClean()
 			res := filt.RunChunked(env, repo, chunks, maxPauses, penv, "git-lfs", "clean", "--", path)
 			o.add("processes", 1)
 			if res.TimedOut {
@@ -276,7 +299,7 @@ func execFilter(c fcase, seed int64, o obs) (in input, vs []viol) {
 				add("go-panic", "clean", "git lfs clean crashed: "+sbx.Trunc(res.Stderr, 1500), nil)
 				return
 			}
-			after := filt.CountObjects(gitDir)
+			after := objSet(gitDir)
 			switch in.Family {
 			case "D":
 				o.add("debatable_clean_runs", 1)
@@ -380,6 +403,7 @@ func execFilter(c fcase, seed int64, o obs) (in input, vs []viol) {
 			add(sym, op, fmt.Sprintf("filter-process answer: %+v exit=%d stderr=%s", summarize(resp), code, sbx.Trunc([]byte(se), 1200)), nil)
 		}
 		if in.Kind != "S-empty" {
+			refClean()
 			resp := cl.Do(fpclient.Request{Command: "clean", Path: path, Payload: in.B, Pk: pk, GapEvery: gap})
 			o.add("filter_requests", 1)
 			if in.Family == "D" {
@@ -399,7 +423,7 @@ func execFilter(c fcase, seed int64, o obs) (in input, vs []viol) {
 				fail("clean", "clean-failed", resp)
 				return
 			}
-			after := filt.CountObjects(gitDir)
+			after := objSet(gitDir)
 			o.add("clean_outputs_compared", 1)
 			if in.Family == "P" {
 				o.add("object_count_checks", 1)
@@ -407,6 +431,9 @@ func execFilter(c fcase, seed int64, o obs) (in input, vs []viol) {
 					add(sym, "clean", what, map[string]any{"clean_output": sbx.Trunc(resp.Content, 600)})
 				}
 				// the process must still be in sync: same pointer again, one packet
+				if len(vs) == 0 {
+					refClean()
+				}
 				again := cl.Do(fpclient.Request{Command: "clean", Path: path, Payload: in.B})
 				o.add("filter_requests", 1)
 				if !again.OK() {
@@ -416,7 +443,7 @@ func execFilter(c fcase, seed int64, o obs) (in input, vs []viol) {
 				o.add("clean_outputs_compared", 1)
 				o.add("object_count_checks", 1)
 				if len(vs) == 0 {
-					if sym, what := judgeP(in, again.Content, before, filt.CountObjects(gitDir)); sym != "" {
+					if sym, what := judgeP(in, again.Content, before, objSet(gitDir)); sym != "" {
 						add(sym, "clean", "second request on the same process: "+what, nil)
 					}
 				}
@@ -472,6 +499,7 @@ func execFilter(c fcase, seed int64, o obs) (in input, vs []viol) {
 		// whatever file sits at the path is at most a size hint. The filter output is read back
 		// with the LFS filters disabled and judged by the same oracles.
 		traceFile := filepath.Join(env.Root, "git-trace.log")
+		refClean()
 		res := env.Run(sbx.RunOpt{Dir: repo, Stdin: bytes.NewReader(in.B), Env: append(append([]string{}, penv...), "GIT_TRACE="+traceFile)}, "git", "hash-object", "-w", "--path", path, "--stdin")
 		o.add("git_commands", 1)
 		o.add("git_hash_object_runs", 1)
@@ -487,12 +515,14 @@ func execFilter(c fcase, seed int64, o obs) (in input, vs []viol) {
 			panic("git hash-object --path did not run the LFS clean filter (monitor observed nothing)")
 		}
 		id := strings.TrimSpace(string(res.Stdout))
-		blob := env.PlainGit(repo, "cat-file", "blob", id)
+		// `cat-file blob` never runs a filter; refEnv: with GIT_ALTERNATE_OBJECT_DIRECTORIES Git does not write a
+		// blob again that the alternate already holds, so the read-back needs the same object directories
+		blob := env.Run(sbx.RunOpt{Dir: repo, Env: refEnv}, "git", "cat-file", "blob", id)
 		if !blob.OK() {
 			panic("cannot read back the blob written by git hash-object: " + blob.String())
 		}
 		out := blob.Stdout
-		after := filt.CountObjects(gitDir)
+		after := objSet(gitDir)
 		o.add("clean_outputs_compared", 1)
 		switch in.Family {
 		case "P":
